@@ -107,7 +107,28 @@ def wl_C03(tier, rng):
         yield (meta, ops)
 
 
+def big_multiplicity_family(tier, rng):
+    """multiplicities in the upper half of the 32-bit range (valid: each stays below 2^32): any
+    arithmetic done in a narrower or signed type shows up as a wrong counter or a sanitizer report"""
+    big = [2147483647, 2147483648, 2147483649, 4294967295, 4294967294]
+    for cls in MULTI:
+        for rep in range(scale(tier, 8, 60)):
+            n = 3
+            ops = [gen.new_line(0, cls, "-", n)]
+            i, j = gen.pick_pair(rng, n)
+            a, b = rng.sample(big, 2)
+            ops += [f"addMultiedge 0 {i} {j} {a} 0", f"setEdgeMultiplicity 0 {i} {j} {b}",
+                    f"setEdgeMultiplicity 0 {j if cls == 'umulti' else i} {i if cls == 'umulti' else j} {a}",
+                    f"removeMultiedge 0 {i} {j} {min(a, 2147483648)}"]
+            c, d = gen.pick_pair(rng, n)
+            ops += [f"addMultiedge 0 {c} {d} 1 0", f"setEdgeMultiplicity 0 {c} {d} {rng.choice(big)}",
+                    f"q 0 getEdgeMultiplicity {c} {d}", f"setEdgeMultiplicity 0 {c} {d} 1",
+                    f"removeVertexFromEdgeList 0 {rng.randrange(n)}", "dump 0"]
+            yield ({"cls": cls, "kind": "-", "n": n, "len": len(ops), "family": "big-mult"}, ops)
+
+
 def wl_C04(tier, rng):
+    yield from big_multiplicity_family(tier, rng)
     yield from wl_statemachine(MULTI, tier, rng)
 
 
